@@ -3,6 +3,7 @@
 package vt
 
 import (
+	"os"
 	"bytes"
 	"context"
 	"errors"
@@ -194,6 +195,11 @@ func (r *receiverDouble) ReceiveError(err error) { r.add(rcvCall{kind: "error", 
 func drawMessage(t *rapid.T) (datatransfer.Message, string) {
 	id := datatransfer.TransferID(rapid.Uint64().Draw(t, "id"))
 	v := datatransfer.TypedVoucher{Type: "T/a", Voucher: basicnode.NewString(rapid.StringN(0, 8, 16).Draw(t, "voucher"))}
+	if rapid.IntRange(0, 39).Draw(t, "largeVoucher") == 0 {
+		// a voucher around and beyond one MiB: no size limit is documented for a message
+		n := rapid.SampledFrom([]int{1<<20 - 200, 1 << 20, 1<<20 + 1, 3 << 20}).Draw(t, "voucherBytes")
+		v.Voucher = basicnode.NewBytes(bytes.Repeat([]byte{0xab}, n))
+	}
 	switch rapid.IntRange(0, 8).Draw(t, "msgKind") {
 	case 0:
 		m, _ := message.NewRequest(id, false, rapid.Bool().Draw(t, "pull"), &v, gen.CidOf([]byte("x")), basicnode.NewString("sel"))
@@ -567,6 +573,11 @@ func TestC15_Inbound(t *testing.T) {
 		})
 		desc := fmt.Sprintf("inbound %s stream (%d bytes, message kind %s) from %s", class, len(content), kind, gen.PeerName(remote))
 		failf := func(key, f string, a ...any) {
+			if os.Getenv("VERIF_PROP") == "C12" {
+				// the same observation, named for the property this run decides (a message that
+				// does not survive the network form)
+				key = "C12/network-form/" + strings.TrimPrefix(key, "C15/")
+			}
 			var calls []string
 			for _, c := range rcv.calls {
 				calls = append(calls, fmt.Sprintf("%s from %s", c.kind, gen.PeerName(c.from)))
@@ -611,10 +622,20 @@ func TestC15_Inbound(t *testing.T) {
 			}
 		}
 		sp.Eval()
+		if os.Getenv("VERIF_PROP") == "C12" {
+			stats.For("C12").Eval()
+			stats.For("C12").Class("network_form_through_the_stream_handler")
+			if len(content) >= 1<<20-4096 {
+				stats.For("C12").Class("network_form_message_of_a_mebibyte_or_more")
+			}
+			if class == "valid" {
+				stats.For("C12").Nontrivial(stats.FP("net-handler", kind, len(content) >= 1<<20-4096))
+			}
+		}
 		if class != "empty" {
 			fp := stats.FP("inbound", kind, class, msg.IsRequest(), msg.IsNew(), msg.IsCancel())
 			sp.Nontrivial(fp)
-			if sp.WantSample() {
+			if sp.WantSample() && len(content) < 4096 {
 				sp.Sample(fp, map[string]any{"engine": "netx", "kind": "inbound", "class": class, "message_kind": kind, "bytes_hex": fmt.Sprintf("%x", content), "receiver_calls": len(rcv.calls)})
 			}
 		}
